@@ -18,6 +18,9 @@
 //	Walk WalkClass WalkPartial            Do: succeeds | ErrCancel | user error | panic, at the first entry with a
 //	WalkPartialClass                        given value; windows 0,1,len-1,len,len+1,2^62,2^63-1 (window) and
 //	                                        >= 2^63 (overflow, models only); undecodable value midway (classvalue)
+//	a walk that ends early                earlystop: every walk kind x {Do cancels, fails, panics, a value does not
+//	                                        decode} x stop at an earlier / later entry, then every writer kind on
+//	                                        the same store (what the walk held must be gone: "busy" is never accepted)
 //	Create CreateMissing Destroy          multi: per handle and through Tables; every method before Create and
 //	                                        after Destroy (must report an error), Create on an existing table,
 //	                                        CreateMissing on an existing table (must keep it), Destroy+Create
@@ -54,7 +57,8 @@
 //	                                        its doublings by SetBytes / AppendBytes / incr carry (sizes)
 //	SQL table (k unique, c, v)            on disk per (file, table name); shared by all handles of that name;
 //	                                        value typed BLOB by a bound []byte, TEXT by the || of an append (typing)
-//	sqlx.DB pool                          one per file, reused by all handles and histories of the run; a
+//	sqlx.DB pool                          one per file, reused by all handles and histories of the run (a store
+//	                                        set-up that fails is an observation about the history before); a
 //	                                        Mutate that fails / cancels / panics must leave no transaction behind
 //	                                        (later calls would hang or fail: per-call time limit, "hang")
 //	Tables.tables                         registration order = order of Create / Destroy (lifecycle)
